@@ -1094,8 +1094,10 @@ class ConvertInstance:
         ctx.visit(search_unneeded_bool_casts)
 
         def replace_temporaries(obj, access):
-            if obj in replacement_map:
-                return replacement_map[obj]
+            # follow chains of removed casts (the source of a removed
+            # cast can itself be the result of a removed cast)
+            while obj in replacement_map:
+                obj = replacement_map[obj]
 
             return obj
 
